@@ -157,6 +157,119 @@ def gen_len(ctx):
     return out
 
 
+def gauss_length_graded(rows, a, levels, sub):
+    """composite 8-point Gauss-Legendre on a mesh graded geometrically towards the parameter a (where the speed vanishes or
+    nearly vanishes): panel boundaries a +- 2^-j, j = 1..levels, each panel split into `sub` pieces"""
+    import numpy as np
+    pts = {0.0, 1.0, float(a)}
+    for j in range(1, levels + 1):
+        for sgn in (-1, 1):
+            x = float(a) + sgn * 2.0 ** -j
+            if 0.0 < x < 1.0:
+                pts.add(x)
+    pts = sorted(pts)
+    edges = []
+    for lo, hi in zip(pts[:-1], pts[1:]):
+        edges.extend(np.linspace(lo, hi, sub + 1)[:-1])
+    edges.append(1.0)
+    edges = np.array(edges)
+    xs, ws = np.polynomial.legendre.leggauss(8)
+    n = len(rows[0]) - 1
+    lo_, hi_ = edges[:-1, None], edges[1:, None]
+    s = (0.5 * (lo_ + hi_) + 0.5 * (hi_ - lo_) * xs[None, :]).ravel()
+    w = (0.5 * (hi_ - lo_) * ws[None, :]).ravel()
+    sp = np.zeros_like(s)
+    m = n - 1
+    for r in rows:
+        v = np.zeros_like(s)
+        for i in range(n):
+            v += math.comb(m, i) * s ** i * (1 - s) ** (m - i) * float(n * (r[i + 1] - r[i]))
+        sp += v * v
+    return float(np.sum(w * np.sqrt(sp)))
+
+
+def gen_len_cusps(ctx):
+    """curves whose speed vanishes (or nearly vanishes) at a known interior parameter a: cusps  B' = (s - a)^2 (p(s), q(s)) + (0, eps),
+    and straight curves that double back  B' = (s - a) p(s) (1, c) + (0, eps);  eps = 0, 2^-8, 2^-12.  Built in the power basis in
+    rational arithmetic, converted to Bernstein form and rounded to binary64 (the adaptive quadrature has to refine around a)"""
+    rng = ctx.rng
+    out = []
+    for _ in range(30 if ctx.quick() else 600):
+        a = F(rng.randint(3, 13), 16)
+        kind = rng.choice(["cusp", "cusp", "double-back"])
+        # (nearly cusped curves of kind "cusp" are a FIXED corpus, see near_cusp_corpus: known finding F21)
+        eps = F(0) if kind == "cusp" else rng.choice([F(0), F(1, 2 ** 8), F(1, 2 ** 12)])
+        if rng.random() < 0.5:
+            a = F(rng.randint(3 * 17, 13 * 17), 16 * 17)            # not a break point of the bisection
+        deg_p = rng.randint(1, 3)
+        p = [F(rng.randint(-8, 8), 2) for _ in range(deg_p + 1)]
+        q = [F(rng.randint(-8, 8), 2) for _ in range(deg_p + 1)]
+        if not any(p) or not any(q):
+            continue
+        fac = oq.poly_pow([-a, F(1)], 2 if kind == "cusp" else 1)
+        dx = oq.poly_mul(fac, p)
+        if kind == "cusp":
+            dy = oq.poly_mul(fac, q)
+        else:
+            c_ = F(rng.randint(-4, 4), 2)
+            dy = [c_ * v for v in dx]
+        dy = [dy[0] + eps] + list(dy[1:])
+        integ = lambda d: [F(0)] + [v / (i + 1) for i, v in enumerate(d)]
+        n = len(dx)            # degree of x
+        rows = [[F(float(v)) for v in oq.from_power(integ(dx), n)], [F(float(v)) for v in oq.from_power(integ(dy), n)]]
+        if all(len(set(r)) == 1 for r in rows):
+            continue
+        out.append({"n": n, "rows": rows, "a": a, "kind": kind, "eps": eps})
+    return out
+
+
+def _cusp_curve(a, eps, p, q):
+    fac = oq.poly_pow([-a, F(1)], 2)
+    dx, dy = oq.poly_mul(fac, p), oq.poly_mul(fac, q)
+    dy = [dy[0] + eps] + list(dy[1:])
+    integ = lambda d: [F(0)] + [v / (i + 1) for i, v in enumerate(d)]
+    n = len(dx)
+    return n, [[F(float(v)) for v in oq.from_power(integ(dx), n)], [F(float(v)) for v in oq.from_power(integ(dy), n)]]
+
+
+def near_cusp_corpus():
+    """a FIXED corpus (own PRNG, independent of the run's seed) of nearly cusped curves B' = (s - a)^2 (p, q) + (0, eps),
+    eps = 2^-8, 2^-12, 2^-16: the adaptive quadrature under-samples the narrow dip of the speed on some of them (known finding
+    F21: the inputs that fail on the unchanged tree are listed in checks/f21_near_cusps.json); every other one must meet the
+    advertised tolerance"""
+    import random
+    rng = random.Random(20261002)
+    out = []
+    while len(out) < 160:
+        a = F(rng.randint(3 * 17, 13 * 17), 16 * 17) if rng.random() < 0.5 else F(rng.randint(3, 13), 16)
+        eps = rng.choice([F(1, 2 ** 8), F(1, 2 ** 12), F(1, 2 ** 16)])
+        deg_p = rng.randint(1, 3)
+        p = [F(rng.randint(-8, 8), 2) for _ in range(deg_p + 1)]
+        q = [F(rng.randint(-8, 8), 2) for _ in range(deg_p + 1)]
+        if not any(p) or not any(q):
+            continue
+        n, rows = _cusp_curve(a, eps, p, q)
+        out.append({"n": n, "rows": rows, "a": a, "kind": "near-cusp", "eps": eps, "index": len(out)})
+    return out
+
+
+def corpus_key(c):
+    return "|".join(",".join(float(v).hex() for v in r) for r in c["rows"])
+
+
+def judge_len_cusp(c, op, cfg, raw):
+    if "exc" in raw:
+        return "raised %s: %s" % (raw["exc"], raw.get("msg"))
+    got = float(dec_res(raw["ok"]))
+    r1, r2 = gauss_length_graded(c["rows"], c["a"], 44, 4), gauss_length_graded(c["rows"], c["a"], 48, 8)
+    if abs(r1 - r2) > 2.0 ** -36 * max(r2, 1e-300):
+        return None             # the reference itself is not trusted: no claim
+    if abs(got - r2) > 4 * 2.0 ** -26 * max(r2, 1e-300) + 1e-12:
+        return "length %r of a curve whose speed (nearly) vanishes at s = %s differs from the graded-mesh reference %r by %.3g relative" % (
+            got, c["a"], r2, abs(got - r2) / max(r2, 1e-300))
+    return None
+
+
 def judge_len(c, op, cfg, raw):
     if "exc" in raw:
         return "raised %s: %s" % (raw["exc"], raw.get("msg"))
@@ -200,6 +313,15 @@ def run(ctx):
                coq_chord, HEADER, "chk_chord", configs=("speedup",), nontrivial=nt)
     # length of curved curves: the pure-Python path needs SciPy (absent): speedup only; support, not proof
     sweep(ctx, "Curve_length_vs_reference_integral", gen_len(ctx), [("Curve.length", lambda c: [enc_arr(c["rows"])])], judge_len, configs=("speedup",))
+    sweep(ctx, "Curve_length_cusps_and_double_backs", gen_len_cusps(ctx), [("Curve.length", lambda c: [enc_arr(c["rows"])])], judge_len_cusp, configs=("speedup",))
+    # nearly cusped curves: fixed corpus; the inputs listed in checks/f21_near_cusps.json are known finding F21, the others must pass
+    import json as _json
+    import os as _os
+    pinned = {e["key"] for e in _json.load(open(_os.path.join(_os.path.dirname(__file__), "f21_near_cusps.json")))["failing"]}
+    f21 = ("F21 Curve.length misses the advertised quadrature tolerance (errors 1e-7 .. 2e-5 relative) on nearly cusped curves of the fixed "
+           "corpus listed in checks/f21_near_cusps.json: QUADPACK's error estimate under-samples the narrow dip of the speed")
+    sweep(ctx, "Curve_length_near_cusp_corpus", near_cusp_corpus(), [("Curve.length", lambda c: [enc_arr(c["rows"])])], judge_len_cusp,
+          configs=("speedup",), known=lambda c, op, cfg, r: f21 if corpus_key(c) in pinned else None)
     return finish(ctx, "area: theorems for all real nets of edge degree 1-4 with the shoelace triples/scales regenerated from the source. "
                   "LENGTH IS NOT PROVED: dqagse/QUADPACK and scipy.integrate.quad are not modelled; the integrand handed to the "
                   "quadrature is the hodograph norm (C11); a support sweep compares Curve.length with chord/polygon bounds and a "
